@@ -216,6 +216,9 @@ func resBody(name string, kind string, writes []string, subs []subSpec) func() {
 		var col *resource.Collection
 		if kind == "value" {
 			val = resource.NewValue(resource.WithInitialValue(msg(0)))
+		} else if kind == "coll-nodup" {
+			// with an equivalence the subscription keeps track of what it sent: a removal is never "nothing new"
+			col = resource.NewCollection(resource.WithNoDuplicates(), resource.WithInitialRecord("a", msg(0)))
 		} else {
 			col = resource.NewCollection(resource.WithInitialRecord("a", msg(0)))
 		}
@@ -317,7 +320,7 @@ func resBody(name string, kind string, writes []string, subs []subSpec) func() {
 		}
 		verifrt.WaitIdle()
 		for i, sp := range subs {
-			if sp.kind == "id" && removed && !closed[i] && (sp.abandon == -1 || sp.abandon == -2) && subAt[i] != 0 && subAt[i] < delAt && !sp.updatesOnly {
+			if sp.kind == "id" && removed && !closed[i] && (sp.abandon == -1 || sp.abandon == -2) && subAt[i] != 0 && subAt[i] < delAt {
 				verifrt.Logf("FAIL id-not-closed %s ## item removed and consumer still receiving, but the PullID channel did not close", name)
 			}
 		}
@@ -480,6 +483,10 @@ func main() {
 		h.Sched(name, q, t, resBody(name, kind, writes, subs), hx.StdOracle)
 	}
 	for _, bp := range []bool{true, false} {
+		for _, uo := range []bool{true, false} {
+			res("coll-nodup", -1, -1, []string{"del"}, subSpec{kind: "id", backpressure: bp, updatesOnly: uo, abandon: -1})
+			res("coll-nodup", -1, -1, []string{"upd", "del"}, subSpec{kind: "id", backpressure: bp, updatesOnly: uo, abandon: -1})
+		}
 		res("value", -1, -1, []string{"set", "set"}, subSpec{kind: "value", backpressure: bp, abandon: -1, cancel: true})
 		res("value", -1, -1, []string{"set", "set"}, subSpec{kind: "value", backpressure: bp, abandon: 1})
 		res("value", -1, -1, []string{"set"}, subSpec{kind: "value", backpressure: bp, abandon: -1, cancel: true}, subSpec{kind: "value", backpressure: !bp, updatesOnly: true, abandon: 0})
